@@ -83,6 +83,7 @@ pub struct RunOpts<'a> {
     pub timeout: Duration,
     pub args: Vec<String>,
     pub pace_ms: u64, // pause between lines (0 = write everything at once)
+    pub io_first: bool, // the I/O thread answers with the first move it receives (search thread carries on)
 }
 
 #[derive(Clone, Copy, PartialEq, Eq)]
@@ -92,7 +93,7 @@ pub enum End {
 }
 
 pub fn default_opts<'a>() -> RunOpts<'a> {
-    RunOpts { bin: BIN_ON, hooks: true, end: End::Quit, timeout: Duration::from_secs(8), args: Vec::new(), pace_ms: 0 }
+    RunOpts { bin: BIN_ON, hooks: true, end: End::Quit, timeout: Duration::from_secs(8), args: Vec::new(), pace_ms: 0, io_first: false }
 }
 
 /// Run one fresh process of the engine through a session (after the `uci` handshake).
@@ -105,6 +106,9 @@ pub fn run_session(cmds: &[Cmd], opts: &RunOpts) -> Outcome {
         let ks: Vec<String> = cmds.iter().filter(|c| is_go(&c.line)).map(|c| c.expiry.map(|k| k.to_string()).unwrap_or("0".into())).collect();
         command.env("WALLEYE_VERIF_CLOCK", if ks.is_empty() { "0".to_string() } else { ks.join(",") });
         command.env("WALLEYE_VERIF_DUMP", "1");
+        if opts.io_first {
+            command.env("WALLEYE_VERIF_IO", "first");
+        }
     }
     let t0 = Instant::now();
     let mut child = match command.spawn() {
@@ -596,6 +600,45 @@ pub fn run_c16(rep: &Report) -> i32 {
         }
     });
     rep.add("dynamic_probe_runs_continuing_the_sessions_own_game", dyn_runs.load(Ordering::Relaxed));
+    // the other extreme of the hand-off: the I/O thread answers with the FIRST move it receives while the search
+    // thread carries on and keeps sending. What a search sends after its go has been answered must never be
+    // taken for the answer to a later go: bestmove sequences (only those: info lines of the still-running
+    // searches interleave freely) must equal those of a fresh engine in the same mode.
+    let early_opts = || {
+        let mut o = default_opts();
+        o.io_first = true;
+        o
+    };
+    let timed_probes: Vec<usize> = (0..probes.len()).filter(|p| probes[*p][1].expiry.is_some()).collect();
+    let bestmoves = |o: &Outcome| -> Vec<String> { o.stdout.iter().filter(|l| l.starts_with("bestmove")).cloned().collect() };
+    let early_fresh: Vec<Vec<String>> = run_parallel(timed_probes.len(), |i| {
+        let mut s = probes[timed_probes[i]].clone();
+        s.extend(probes[timed_probes[i]].iter().cloned());
+        bestmoves(&run_session(&s, &early_opts()))
+    });
+    let early_jobs: Vec<(usize, usize)> = (0..g.nodes.len()).filter(|n| g.nodes[*n].1.iter().any(|c| c.expiry.is_some())).flat_map(|n| (0..timed_probes.len()).map(move |p| (n, p))).collect();
+    let early_runs = AtomicU64::new(0);
+    if early_fresh.len() == timed_probes.len() {
+        run_parallel(early_jobs.len(), |i| {
+            let (n, p) = early_jobs[i];
+            let mut session = g.nodes[n].1.clone();
+            let n_prefix_go = session.iter().filter(|c| is_go(&c.line)).count();
+            session.extend(probes[timed_probes[p]].iter().cloned());
+            session.extend(probes[timed_probes[p]].iter().cloned());
+            let o = run_session(&session, &early_opts());
+            early_runs.fetch_add(1, Ordering::Relaxed);
+            if o.timed_out {
+                rep.fail("C08", "session-hangs", format!("early-answer mode: session of {} commands had to be killed", session.len()), session_json(&session).set("mode", J::s("WALLEYE_VERIF_IO=first")));
+                return;
+            }
+            let b = bestmoves(&o);
+            let got: Vec<String> = b.iter().skip(n_prefix_go).cloned().collect();
+            if got != early_fresh[p] {
+                rep.fail("C16", "early-answer-mode/bestmove-differs-from-fresh-engine", format!("I/O thread answering with the first move it receives: after {:?} the probe {:?} (sent twice) is answered {:?}, a fresh engine answers {:?}", g.nodes[n].1.iter().map(|c| c.line.clone()).collect::<Vec<_>>(), probes[timed_probes[p]].iter().map(|c| c.line.clone()).collect::<Vec<_>>(), got, early_fresh[p]), session_json(&session).set("mode", J::s("WALLEYE_VERIF_IO=first")));
+            }
+        });
+    }
+    rep.add("early_answer_mode_probe_runs", early_runs.load(Ordering::Relaxed));
     // prefix relation between the two timed allowances of each probed position
     for p in (0..probes.len()).step_by(3) {
         if !infos_prefix_related(&replies(&fresh[p + 1]), &replies(&fresh[p + 2])) {
@@ -656,13 +699,13 @@ pub fn run_c16(rep: &Report) -> i32 {
     rep.assume("the loop's only mutable locals are the board and the repetition record (dumped by hook H7), so equal dumps have equal futures");
     rep.assume("under the environment-driven virtual clock the I/O thread answers after the search thread has finished and been drained: the reply is the search's last improvement under expiry k");
     let rule = format!("BFS over the session state graph: {} commands as transitions from every state, to {}; then each of {} probes (6 positions x zero allowance / expiry 40 / expiry 400), sent twice, after every state, compared with a fresh engine; transitions and probes also include, per state, the continuations of the session's own game (last position command + the engine's answers + a legal reply, or the last move taken back and replaced); all raw sessions of length <= {} cross-check the state dedup", alphabet.len(), if g.fixpoint { "the fixpoint".to_string() } else { format!("depth {}", g.depth_reached) }, probes.len(), raw_len);
-    let total_sessions = g.edges + probe_runs.load(Ordering::Relaxed) + dyn_runs.load(Ordering::Relaxed) + raw.len() as u64;
+    let total_sessions = g.edges + probe_runs.load(Ordering::Relaxed) + dyn_runs.load(Ordering::Relaxed) + early_runs.load(Ordering::Relaxed) + raw.len() as u64;
     rep.finish(g.nodes.len() as u64, total_sessions, conf_ok.load(Ordering::Relaxed), g.fixpoint, &rule)
 }
 
 // ================================================================================================ C17
 
-pub const GARBAGE: [&str; 14] = ["", "   ", "\t\t", "foo", "xyzzy 1 2 3", "POSITION startpos", "stop", "ponderhit", "debug on", "uci", "register later", "go2", "isreadyy", "position2 startpos"];
+pub const GARBAGE: [&str; 19] = ["", "   ", "\t\t", "foo", "xyzzy 1 2 3", "POSITION startpos", "stop", "ponderhit", "debug on", "uci", "register later", "go2", "isreadyy", "position2 startpos", "hello\u{a0}world", "a\u{2003}b\u{3000}c d", "\u{a0}", "é\u{a0}é\u{85}x", "stop\u{2028}now"];
 
 pub fn run_c17(rep: &Report) -> i32 {
     require_binaries();
@@ -1027,7 +1070,7 @@ pub fn c03_sessions(rep: &Report, prop: &str) -> (u64, u64) {
     }
     // (d) sequences of go without a new position, expiry vectors from {0,1,5,40}^n
     let ks = [0u64, 1, 5, 40];
-    let seq_roots = [POSITIONS[0], POSITIONS[2], POSITIONS[3], "position fen 1n2k2r/P7/8/8/8/8/8/4K3 w k - 0 1", "position fen 4k3/8/8/8/8/8/p7/1N2K2R b K - 0 1", "position fen r3k2r/8/8/8/8/8/8/R3K2R w KQkq - 0 1", "position fen 8/8/8/8/8/5k2/7p/7K b - - 0 1"];
+    let seq_roots = ["position fen k7/8/1K6/8/8/8/8/7R w - - 0 1", "position fen 6k1/5ppp/8/8/8/8/8/R3K3 w Q - 0 1", POSITIONS[0], POSITIONS[2], POSITIONS[3], "position fen 1n2k2r/P7/8/8/8/8/8/4K3 w k - 0 1", "position fen 4k3/8/8/8/8/8/p7/1N2K2R b K - 0 1", "position fen r3k2r/8/8/8/8/8/8/R3K2R w KQkq - 0 1", "position fen 8/8/8/8/8/5k2/7p/7K b - - 0 1"];
     for r in seq_roots {
         for n in 1..=(if quick { 3 } else { 4 }) {
             let mut idx = vec![0usize; n];
@@ -1077,6 +1120,29 @@ pub fn c03_sessions(rep: &Report, prop: &str) -> (u64, u64) {
         for g in ["go", GO_TIMED, "go wtime 1 btime 1", "go movestogo 1 wtime 100000 btime 100000"] {
             sessions.push(vec![c(t), go(g, 10), c("isready"), c(POSITIONS[0]), go(GO_TIMED, 10), c("isready")]);
         }
+    }
+    // odd clock values on the UNHOOKED binary with the real clock: the planned slice must be small, so the answer
+    // must come at once (a slice that wraps around or explodes shows as a missing bestmove)
+    let odd: Vec<Vec<Cmd>> = ["go wtime -50 btime -50 winc 1000 binc 1000", "go wtime -1000000 btime -1000000 winc 1 binc 1", "go wtime 0 btime 0 winc 500 binc 500", "go wtime 50 btime 50 winc 10000 binc 10000", "go wtime -1 btime -1", "go wtime 100 btime 100 winc -5 binc -5", "go wtime 101 btime 101 winc 0 binc 0", "go wtime 99 btime 99 movestogo 1", "go winc 300 binc 300", "go wtime -170141183460469231731687303715884105728 btime 5 winc 7 binc 7"]
+        .iter()
+        .map(|g| vec![c(POSITIONS[3]), c(g), c("isready")])
+        .collect();
+    {
+        let results = run_parallel(odd.len(), |i| {
+            let mut opts = default_opts();
+            opts.bin = BIN_OFF;
+            opts.hooks = false;
+            opts.timeout = Duration::from_secs(6);
+            run_session(&odd[i], &opts)
+        });
+        for (i, o) in results.iter().enumerate() {
+            let lines: Vec<String> = odd[i].iter().map(|c| c.line.clone()).collect();
+            let best = o.stdout.iter().filter(|l| l.starts_with("bestmove")).count();
+            if o.timed_out || best != 1 || o.stdout.last().map(|l| l.as_str()) != Some("readyok") {
+                rep.fail(prop, "odd-clock-values-not-answered", format!("{:?} on the unhooked binary (real clock): {} bestmove lines, timed out: {}, last line {:?}", lines, best, o.timed_out, o.stdout.last()), session_json(&odd[i]).set("binary", J::s(BIN_OFF)));
+            }
+        }
+        rep.add("real_clock_sessions_with_odd_clock_values", odd.len() as u64);
     }
     // every position command of the sweep must describe a legal game (a wrong test input is not a verdict)
     for s in &sessions {
